@@ -102,6 +102,12 @@ func init() {
 		"(*bytes.Buffer).Next":  intrBufferNext,
 		"(*bytes.Buffer).Bytes": intrBufferBytes,
 		"(*bytes.Buffer).Len":   intrBufferLen,
+		"(*bytes.Buffer).Write": func(ex *Exec, fn *ssa.Function, a []Value, fr *Frame) Value {
+			o, buf, _ := ex.bufParts(a[0])
+			nb := ex.appendOp(buf, a[1]).(*SliceV)
+			o.Val.(StructV)[0] = nb
+			return TupleV{a[1].(*SliceV).Len, &IfaceV{}}
+		},
 		"encoding/binary.Read":  intrBinaryRead,
 		"(encoding/binary.bigEndian).PutUint32": func(ex *Exec, fn *ssa.Function, a []Value, fr *Frame) Value { return ex.putUint(a[1].(*SliceV), a[2].(*Term), 4) },
 		"(encoding/binary.bigEndian).PutUint64": func(ex *Exec, fn *ssa.Function, a []Value, fr *Frame) Value { return ex.putUint(a[1].(*SliceV), a[2].(*Term), 8) },
